@@ -6,6 +6,7 @@ Exit codes (DESIGN 1): 0 held (plus KNOWN-FINDING lines); 1 replayed counterexam
 import json, os, sys, time, hashlib, subprocess, re, concurrent.futures as cf
 
 VERIF = os.path.dirname(os.path.dirname(os.path.abspath(__file__)))
+OUT = os.environ.get('VERIF_OUT') or VERIF       # evidence/ and replays/ go here (scratch runs on seeded copies set VERIF_OUT)
 PY = os.path.join(VERIF, '.venv', 'bin', 'python')
 NCPU = int(os.environ.get('VERIF_JOBS', os.cpu_count() or 4))
 
@@ -92,12 +93,12 @@ class Run:
         for c in self.cex:
             k = self.match_known(c['key'])
             (knowns if k else violations).append(c)
-        os.makedirs(os.path.join(VERIF, 'replays', self.pid), exist_ok=True)
+        os.makedirs(os.path.join(OUT, 'replays', self.pid), exist_ok=True)
         for c in knowns:
             print('KNOWN-FINDING: property=%s %s [%s]' % (self.pid, c['what'], c['key']))
         for c in violations:
             h = hashlib.sha1(c['key'].encode()).hexdigest()[:12]
-            path = os.path.join(VERIF, 'replays', self.pid, h + '.json')
+            path = os.path.join(OUT, 'replays', self.pid, h + '.json')
             json.dump({'property': self.pid, 'key': c['key'], 'what': c['what'], 'replay': c['replay']},
                       open(path, 'w'), indent=1, default=repr)
             print('VIOLATION property=%s replay=%s' % (self.pid, path))
@@ -135,8 +136,8 @@ class Run:
         ev = {'property_id': self.pid, 'tier': self.tier, 'seed': self.seed, 'level': self.level,
               'coverage': cov, 'assumptions': self.assumptions, 'wall_s': round(wall, 2),
               'violations': len(violations)}
-        os.makedirs(os.path.join(VERIF, 'evidence'), exist_ok=True)
-        path = os.path.join(VERIF, 'evidence', self.pid + '.json')
+        os.makedirs(os.path.join(OUT, 'evidence'), exist_ok=True)
+        path = os.path.join(OUT, 'evidence', self.pid + '.json')
         json.dump(ev, open(path, 'w'), indent=1, default=repr)
         try:
             import jsonschema
@@ -162,7 +163,7 @@ def _run_ch(job):
     path, fn, cond_to, path_to = job
     cmd = [PY, os.path.join(VERIF, 'engines', 'ch_worker.py'), path, fn, str(cond_to), str(path_to)]
     t0 = time.time()
-    env = dict(os.environ, PYTHONHASHSEED='0', PYTHONPATH=VERIF)
+    env = dict(os.environ, PYTHONHASHSEED='0', PYTHONPATH=(os.environ['VERIF_REPO'] + os.pathsep if os.environ.get('VERIF_REPO') else '') + VERIF)
     try:
         p = subprocess.run(cmd, capture_output=True, text=True, timeout=cond_to * 3 + 90, env=env, cwd=VERIF)
     except subprocess.TimeoutExpired:
@@ -239,6 +240,12 @@ def ch_obligations(run, module_file, specs, cond_to, path_to=None, replay=None):
             except Exception as e:  # noqa
                 run.error('replay of %s crashed: %r' % (name, e))
                 run.ob(name, 'inconclusive', 'replay crashed')
+                continue
+            if not reproduced and s.get('soft_replay'):
+                # a unit below the public API (e.g. one grammar action on an over-approximated child domain): a counterexample the
+                # public API cannot reach is not a violation and not a machinery error - the obligation stays undecided
+                run.validated += 1
+                run.ob(name, 'inconclusive', {'unit counterexample not reachable through the public API': what[:300], 'args': args})
                 continue
             run.counterexample(key, what, {'harness': name, 'args': args, 'crosshair': msg['message'][:500], 'native': info}, reproduced)
             run.ob(name, 'counterexample' if reproduced else 'inconclusive', {'args': args, 'key': key})
